@@ -140,6 +140,18 @@ func c11Case(w *core.W, j int) {
 		mm.Ar = ar
 		mm.Bits &^= 0x000F // RCODE NotAuth would make the verifier refuse early
 	}
+	// every eighth message is a request packed with compression (several records under one long name, so
+	// that the compressed form is much shorter than the buffer it is packed into) whose header ID is
+	// renewed after the TSIG stub was made: the stub's original ID differs from the ID on the wire
+	renewID := j%8 == 6
+	if renewID {
+		long := g.NameOfWireLen(90 + r.IntN(120))
+		mm = &model.Msg{ID: uint16(r.IntN(65536)), Bits: 0x0100, Q: []model.Question{{Name: long.Clone(), Type: 255, Class: 1}}}
+		for i := 0; i < 2+r.IntN(6); i++ {
+			mm.Ns = append(mm.Ns, &model.Rec{Owner: long.Clone(), Type: 1, Class: 1, TTL: 60, L: model.Layouts[1], Vals: []any{[]byte{10, 0, byte(i), byte(j)}}})
+		}
+		w.Count("renewed_id_requests", 1)
+	}
 	if len(mm.Wire()) > 8000 {
 		return
 	}
@@ -147,11 +159,17 @@ func c11Case(w *core.W, j int) {
 	if err != nil {
 		return
 	}
+	if renewID {
+		base.Compress = true
+	}
 	signedAt := uint64(1_700_000_000 + r.IntN(1_000_000))
 	fudge := []uint16{300, 1, 256, 60, 65535, 0}[r.IntN(6)] // 0 asks TsigGenerate for the default of 300
 	var reqMAC []byte
 	if j%2 == 1 {
 		reqMAC = g.Bytes([]int{20, 28, 32, 48, 64, 10}[r.IntN(6)])
+	}
+	if renewID {
+		reqMAC = nil
 	}
 	timersOnly := j%4 == 3 && len(reqMAC) > 0
 	reqMACHex := hex.EncodeToString(reqMAC)
@@ -159,6 +177,9 @@ func c11Case(w *core.W, j int) {
 
 	m := base.Copy()
 	m.SetTsig(keyName.Pres(), alg, fudge, int64(signedAt))
+	if renewID {
+		m.Id ^= 0x5A5A
+	}
 	if j%6 == 5 {
 		// a response that reports a TSIG error other than BADKEY/BADSIG (unsigned by RFC 8945) and
 		// BADTIME (carries other data) is signed like any other message
@@ -193,6 +214,14 @@ func c11Case(w *core.W, j int) {
 		return
 	}
 	wantNo := append([]byte(nil), plain...)
+	if renewID && len(wantNo) >= 2 && len(no) >= 2 {
+		// which ID the message goes out with when stub and header disagree is not judged (the pinned
+		// library writes the stub's original ID into the header, a forwarder would keep the new one); what
+		// is judged is that the MAC covers the message with the original ID, whatever the header carries
+		if id := binary.BigEndian.Uint16(no); id == m.Id || id == base.Id {
+			binary.BigEndian.PutUint16(wantNo, id)
+		}
+	}
 	if !bytes.Equal(no, wantNo) {
 		w.Violation(key("generate-shape/message-octets"), "the signed octets before the TSIG record are not the packed message: "+diffWin(no, wantNo), wit)
 	}
